@@ -13,6 +13,7 @@ mod c09;
 mod c10;
 mod c11;
 mod mergecheck;
+mod hist;
 mod modgen;
 mod c12;
 mod c13;
